@@ -1440,19 +1440,44 @@ def set_once_rule(cx, rep, rid):
     def has_panic(n):
         return any(x["k"] == "Call" and "panicking" in (x.get("callee") or "") for x in walk(n))
 
-    # ---- setters: `if self.f.is_some() { panic } ... self.f = ..`
+    # ---- setters, by role: a function that assigns a field and panics under a test of that same field -
+    # `if self.f.is_some() { panic } .. self.f = ..`, and the spellings benign patches gave it: `assert!(self.f.is_none())`
+    # (b62), `match self.f { Some(_) => panic!(..), None => self.f = Some(v) }` (b35)
     setters = {}
     for g, t in trees.items():
         guarded = set()
         for n in walk(t["body"]):
-            if n["k"] == "If" and has_panic(n["then"]):
-                for c in walk(n["cond"]):
-                    if c["k"] == "MethodCall" and c.get("method") == "is_some" and c["recv"]["k"] == "Field":
-                        guarded.add((c["recv"].get("adt"), c["recv"]["name"]))
+            if n["k"] == "If" and (has_panic(n["then"]) or (n.get("else") and has_panic(n["else"]))):
+                test = n["cond"]
+            elif n["k"] == "Match" and any(has_panic(a["body"]) for a in n["arms"]):
+                test = n["scrut"]
+            else:
+                continue
+            guarded |= {(c.get("adt"), c["name"]) for c in walk(test) if c["k"] == "Field"}
         for n in walk(t["body"]):
             if n["k"] == "Assign" and n["l"]["k"] == "Field" and (n["l"].get("adt"), n["l"]["name"]) in guarded:
                 setters[g] = "%s.%s" % (n["l"].get("adt"), n["l"]["name"])
     rep.floor(rid, "set-once setters (panic when the slot is filled)", len(setters), 1)
+
+    # ---- forwarding helpers: functions that call a setter on every path (`set_renamed_default_export(export)` of
+    # b49 / b62 / b81 wraps the payload and hands it to the setter); calling one IS reaching the setter
+    def on_every_path(n):
+        if not isinstance(n, dict):
+            return
+        yield n
+        k = n["k"]
+        subs = [n["cond"]] if k == "If" else [n["scrut"]] if k == "Match" else [] if k in ("Loop", "Closure") else _children(n)
+        for c in subs:
+            for y in on_every_path(c):
+                yield y
+    all_setters = dict(setters)
+    for _ in range(2):
+        for g, t in trees.items():
+            if g not in all_setters:
+                for x in on_every_path(t["body"]):
+                    if x["k"] in ("Call", "MethodCall") and callee_gid(x) in all_setters:
+                        all_setters[g] = all_setters[callee_gid(x)]
+                        break
 
     def param_lids(t):
         out = []
@@ -1490,13 +1515,23 @@ def set_once_rule(cx, rep, rid):
         for n in walk(t["body"]):
             if n["k"] not in ("If", "Match"):
                 continue
-            guarded = [n["then"]] if n["k"] == "If" else [a["body"] for a in n["arms"]]
-            if not any(x["k"] in ("Call", "MethodCall") and callee_gid(x) in setters for b_ in guarded for x in walk(b_)):
+
+            def sets(b_):
+                return b_ is not None and any(x["k"] in ("Call", "MethodCall") and callee_gid(x) in all_setters for x in walk(b_))
+            # (the setter in the THEN branch of `==`, or in the ELSE branch of `!=`)
+            want = "Eq" if n["k"] == "If" and sets(n["then"]) else "Ne" if n["k"] == "If" and sets(n.get("else")) else None
+            if want is None and not (n["k"] == "Match" and any(sets(a["body"]) for a in n["arms"])):
                 continue
             test = n["cond"] if n["k"] == "If" else n["scrut"]
+
+            def parts(c, op):
+                """conjuncts of the condition (THEN is entered when all hold) / disjuncts (ELSE when none holds)"""
+                while c.get("k") == "DropTemps":
+                    c = c["e"]
+                return parts(c["l"], op) + parts(c["r"], op) if c.get("k") == "Binary" and c.get("op") == op else [c]
             hit = False
-            for c in (walk(test) if n["k"] == "If" else ()):
-                if c["k"] == "Binary" and c.get("op") == "Eq":
+            for c in (parts(test, "And" if want == "Eq" else "Or") if n["k"] == "If" else ()):
+                if c["k"] == "Binary" and c.get("op") == want:
                     sides = [c["l"], c["r"]]
                     lit = [w for w in (reserved_word(s) for s in sides) if w is not None]
                     loc = [s for s in sides for p_ in walk(s) if p_["k"] == "Path" and p_.get("res") == "local"]
@@ -1654,7 +1689,7 @@ def set_once_rule(cx, rep, rid):
         if n["k"] not in ("Call", "MethodCall"):
             return 0
         tg = callee_gid(n)
-        if tg in setters:
+        if tg in all_setters:
             return 1
         idx = None
         w = 1
@@ -1751,7 +1786,7 @@ def set_once_rule(cx, rep, rid):
     # wrapper discovery (two rounds are enough for helper-of-helper)
     for _ in range(2):
         for g, t in trees.items():
-            if g in keyed or g in setters:
+            if g in keyed or g in all_setters:
                 continue
             pl = param_lids(t)
             for i in range(len(pl)):
